@@ -2,6 +2,8 @@
 import json, os, sys
 V = os.path.dirname(os.path.dirname(os.path.abspath(__file__)))
 sys.path.insert(0, os.path.join(V, "lib"))
+import props
+props._load_modules()
 from meta import META
 NA_REASONS = {}
 try:
